@@ -128,6 +128,8 @@ Proof.
   - apply (first_ok_typed (TArray TBool) vs []). left; exact Hvs.
   - apply (first_ok_typed (TMap TBool) vs []). left; exact Hvs.
   - apply (first_ok_typed TBool vs []). left; exact Hvs.
+  - inv_args Hvs. destruct x as [v|t]; [|fin]. cbn in Hh. apply has_type_prim_inv in Hh. destruct Hh as (b & ->).
+    destruct b; fin.
   - inv_args Hvs. destruct x as [v|t]; [|fin]. cbn in Hh. destruct (has_type_array _ _ Hh) as (l & -> & _). fin.
   - inv_args Hvs. destruct x as [v|t]; [|fin]. cbn in Hh. apply has_type_prim_inv in Hh. destruct Hh as (b & ->).
     destruct x0 as [v0|t0]; [|fin]. cbn in Hh0. apply has_type_prim_inv in Hh0. destruct Hh0 as (b0 & ->). fin.
